@@ -326,7 +326,11 @@ func (r *Run) Apply(op Op) *Step {
 		switch op.Kind {
 		case OpScope:
 			idx := len(r.Scopes)
-			child := s.Scope(fmt.Sprintf("s%d", idx))
+			name := fmt.Sprintf("s%d", idx)
+			if op.RawDesc != "" {
+				name = op.RawDesc // a caller-chosen name (siblings may share one)
+			}
+			child := s.Scope(name)
 			dig.VerifReseedScope(child, int64(idx)+1)
 			r.Scopes = append(r.Scopes, child)
 			r.M.AddScope(op.Scope)
